@@ -25,6 +25,9 @@ class _OneCpu:
 SOLVER_WALL_LIMIT = 25
 
 
+LAST_SOLVE = {}
+
+
 def install_seams():
     global _SEAMS
     if _SEAMS:
@@ -53,6 +56,12 @@ def install_seams():
             except Exception:
                 pass
             r = orig(self, *a, **kw)
+            try:
+                # the policy's own incumbent and stopping gap (C14 accounts for what the MIP gap may leave out)
+                LAST_SOLVE["obj"] = self.ObjVal if self.SolCount > 0 else None
+                LAST_SOLVE["gap_param"] = self.Params.MIPGap
+            except Exception:
+                LAST_SOLVE["obj"] = None
             try:
                 hit = self.Status == gp.GRB.TIME_LIMIT
             except Exception:
